@@ -412,13 +412,15 @@ def _certs():
     return _CERTS
 
 
-def _work(i):
+def _work(i, conn=None):
     """Worker (forked: sees the parent's obligation list): serialise, look up the memo, solve, memoise."""
     ob = _OBS[i]
     timeout_s, opts, use_cache = _RUN["timeout_s"], _RUN["opts"], _RUN["use_cache"]
     s2 = to_smt2(ob)
     raw = getattr(ob, "raw", False)
     key = _cache_key(s2, ob.expect, raw)
+    if conn is not None:
+        conn.send(("key", key))
     if use_cache:
         hit = _cache_get(key)
         if hit is not None:
@@ -451,6 +453,63 @@ def _work(i):
     return (i, r, dt, model, reason, backend, None if r == "unsat" else s2)
 
 
+def _child(i, conn):
+    try:
+        res = _work(i, conn)
+    except BaseException as e:  # noqa: BLE001 -- reported to the parent as a checker error for this obligation
+        import traceback
+        res = (i, "error", 0.0, None, repr(e) + traceback.format_exc()[-300:], "z3-5.1", None)
+    try:
+        conn.send(("result", res))
+    finally:
+        conn.close()
+
+
+def _run_forked(indices, jobs, hard_s):
+    """One freshly forked process per obligation (deterministic SMT-LIB text, see discharge), at most `jobs` at a
+    time, each killed after `hard_s` seconds of wall clock."""
+    from multiprocessing.connection import wait
+    ctxm = mp.get_context("fork")
+    pending = list(indices)
+    running = {}   # conn -> [process, index, start time, key]
+    results = {}
+    while pending or running:
+        while pending and len(running) < jobs:
+            i = pending.pop(0)
+            rd, wr = ctxm.Pipe(duplex=False)
+            p = ctxm.Process(target=_child, args=(i, wr))
+            p.start()
+            wr.close()
+            running[rd] = [p, i, time.time(), None]
+        for rd in wait(list(running), timeout=1.0):
+            p, i, t0, key = running[rd]
+            try:
+                tag, payload = rd.recv()
+            except (EOFError, OSError):
+                tag, payload = "result", (i, "error", time.time() - t0, None, "worker died without a result", "z3-5.1", None)
+            if tag == "key":
+                running[rd][3] = payload
+                continue
+            results[i] = payload
+            p.join()
+            rd.close()
+            del running[rd]
+        now = time.time()
+        for rd, (p, i, t0, key) in list(running.items()):
+            if now - t0 > hard_s:
+                p.kill()
+                p.join()
+                rd.close()
+                del running[rd]
+                r, backend = "unknown", "z3-5.1"
+                reason = f"hard wall-clock limit of {hard_s:.0f}s reached: the solver ignored its timeout; worker killed"
+                if _RUN.get("final") and key is not None and key in _certs():
+                    r, reason = "unsat", ""
+                    backend = "certificate (identical query discharged by z3 on the unchanged tree: certs/unsat.sha256); this run: killed at the hard limit"
+                results[i] = (i, r, now - t0, None, reason, backend, None)
+    return results
+
+
 def discharge(obligations, timeout_s=20, jobs=None, fallback=True, opts=None):
     """Return list[Result] in the order of `obligations`.
 
@@ -464,24 +523,19 @@ def discharge(obligations, timeout_s=20, jobs=None, fallback=True, opts=None):
                  "fallback": fallback})
     results = {}
     if _OBS:
-        ctxm = mp.get_context("fork")
+        # hard wall-clock limit per obligation: z3's timeout is cooperative and some of its procedures never look at
+        # it (a seeded change once kept one worker spinning for five hours); a worker that exceeds the limit is
+        # killed and the obligation is undecided, never a violation
+        hard_s = float(os.environ.get("VT_HARD_S") or (6 * timeout_s + 60))
         _RUN["final"] = False
-        # maxtasksperchild=1: every obligation is serialised and solved in a worker freshly forked from this
-        # (idle) parent, so the SMT-LIB text z3 prints -- and with it the memo / certificate key -- does not depend
-        # on which other obligations the same worker happened to process before (z3's printer is sensitive to the
-        # AST allocation history of the process)
-        with ctxm.Pool(min(jobs, len(_OBS)), maxtasksperchild=1) as pool:
-            for res in pool.imap_unordered(_work, range(len(_OBS)), chunksize=1):
-                results[res[0]] = res
+        results = _run_forked(list(range(len(_OBS))), min(jobs, len(_OBS)), hard_s)
         # second pass for anything left without a decision: fewer workers (less contention), twice the budget, so
         # that a verdict does not depend on how busy the machine was; the certificate fallback applies only here
         again = [i for i, res in results.items() if res[1] in ("unknown", "sat-candidate", "error")]
         _RUN["final"] = True
         if again:
             _RUN["timeout_s"] = timeout_s * 2
-            with ctxm.Pool(min(4, len(again)), maxtasksperchild=1) as pool:
-                for res in pool.imap_unordered(_work, again, chunksize=1):
-                    results[res[0]] = res
+            results.update(_run_forked(again, min(4, len(again)), 2 * hard_s))
             _RUN["timeout_s"] = timeout_s
     out = []
     for i, ob in enumerate(_OBS):
